@@ -763,7 +763,10 @@ class Exec:
                     self.ctx.oblige("safety", st, has(recv.t, k), line, "dict.pop key present")
                     res = V(ty.val, get(recv.t, k))
                 else:
-                    res = ite(has(recv.t, k), V(ty.val, get(recv.t, k)), args[1])
+                    try:
+                        res = ite(has(recv.t, k), V(ty.val, get(recv.t, k)), args[1])
+                    except Unsupported:
+                        res = PyPoison("the result of dict.pop(k, default) with a default of another type (line %d)" % line)
                 self.assign_to(recv_node, V(ty, ty.fn("delete")(recv.t, k)), st)
                 return res
         if isinstance(ty, RecT):
@@ -1172,6 +1175,13 @@ def _b_dput(ex, args, kwargs, st, node):
     raise Unsupported("dput into %r" % (d,))
 
 
+def _b_ddel(ex, args, kwargs, st, node):
+    d = lift(args[0])
+    if isinstance(d, V) and isinstance(d.ty, DictT):
+        return V(d.ty, d.ty.fn("delete")(d.t, coerce(args[1], d.ty.key).t))
+    raise Unsupported("ddel from %r" % (d,))
+
+
 def _b_dapp(ex, args, kwargs, st, node):
     return concat(args[0], args[1])
 
@@ -1215,7 +1225,7 @@ BUILTINS = {
     "seq_prefix": PyFn("seq_prefix", _b_seq_prefix),
     "cpath": PyFn("cpath", _b_cpath),
     "dhead": PyFn("dhead", _b_dhead), "dtail": PyFn("dtail", _b_dtail), "dcons": PyFn("dcons", _b_dcons),
-    "dput": PyFn("dput", _b_dput), "odict": PyFn("odict", _b_odict), "dapp": PyFn("dapp", _b_dapp),
+    "dput": PyFn("dput", _b_dput), "ddel": PyFn("ddel", _b_ddel), "odict": PyFn("odict", _b_odict), "dapp": PyFn("dapp", _b_dapp),
     "dhas": PyFn("dhas", _b_dhas),
     "dwf": PyFn("dwf", _b_dfn("wf")), "ddisj": PyFn("ddisj", _b_dfn("disj")),
     "len": PyFn("len", _b_len),
